@@ -46,6 +46,8 @@ def _calls(fn, pred):
 
 
 def check(ctx, rep):
+    from . import c02 as _c02, _share as _sh
+    _sh.share(ctx, rep, _c02, ('range.',), 'every integer in -32768..32767 is accepted by Integer.from_int (and nothing else)')
     sv = ctx.fn(IMPL + ':Implementation.set_variable')
     gv = ctx.fn(IMPL + ':Implementation.get_variable')
     # ---- one conversion, before the paths split --------------------------------------------------------
